@@ -15,7 +15,7 @@
 (* The semantics below is written from the statement of C05, not from the    *)
 (* collector's code; the harness replays every behaviour into the real       *)
 (* Quantity(...) and compares value, dimension and refusal.                  *)
-EXTENDS Dims, Sequences, TLC, Json, FiniteSets
+EXTENDS ExprSem, TLC, Json
 
 CONSTANTS MaxLen,       \* maximal number of nodes of a generated expression
           LeafNames,    \* subset of DOMAIN LeafVal used by this configuration
@@ -24,26 +24,6 @@ CONSTANTS MaxLen,       \* maximal number of nodes of a generated expression
 VARIABLES stack, prog
 
 vars == <<stack, prog>>
-
-AnyCls == {"zero", "inf", "ninf", "nan"}
-Classes == AnyCls \cup {"fin", "irr", "err"}
-
-Zero   == [c |-> "zero", v |-> RZero, d |-> D1]
-Inf    == [c |-> "inf",  v |-> RZero, d |-> D1]
-NInf   == [c |-> "ninf", v |-> RZero, d |-> D1]
-NaN    == [c |-> "nan",  v |-> RZero, d |-> D1]
-Err    == [c |-> "err",  v |-> RZero, d |-> D1]
-Fin(v, d) == IF v = RZero THEN Zero ELSE [c |-> "fin", v |-> v, d |-> d]
-Irr(sign, d) == [c |-> "irr", v |-> R(sign), d |-> d]
-
-IsAny(x) == x.c \in AnyCls
-
-L1 == BaseDim("L")
-T1 == BaseDim("T")
-M1 == BaseDim("M")
-Force  == LMT(ROne, ROne, R(-2), RZero)
-Energy == LMT(R(2), ROne, R(-2), RZero)
-Angle  == BaseDim("A")
 
 (* The leaf alphabet.  Names are shared with the harness (harness/c05.py),   *)
 (* which maps every name to a real SymPy / symplyphysics object.             *)
@@ -84,127 +64,6 @@ AllOps == {"mul2", "mul3", "add2", "add3", "pow", "abs", "min2", "max2", "exp"}
 Arity(o) == CASE o \in {"mul2", "add2", "pow", "min2", "max2"} -> 2
               [] o \in {"mul3", "add3"} -> 3
               [] OTHER -> 1
-
------------------------------------------------------------------------------
-(* Semantics of the node kinds, from the statement.                         *)
-
-HasAngle(x) == x.d["A"] # RZero
-
-\* ---- product -------------------------------------------------------------
-SignOf(x) == CASE x.c = "fin" -> RSign(x.v) [] x.c = "irr" -> x.v[1]
-               [] x.c = "inf" -> 1 [] x.c = "ninf" -> -1 [] OTHER -> 0
-
-Mul2Defined(a, b) ==
-  /\ ~(a.c = "irr" /\ b.c = "irr")                                  \* could cancel: not decided
-  /\ ~(a.c = "irr" /\ b.c \in {"inf", "ninf"} /\ a.v[1] = 0)
-  /\ ~(b.c = "irr" /\ a.c \in {"inf", "ninf"} /\ b.v[1] = 0)
-  /\ (a.c = "fin" /\ b.c = "fin" => Small(RMul(a.v, b.v)))          \* operands are Small: no overflow
-  /\ DimSmall(a.d) /\ DimSmall(b.d)
-
-Mul2(a, b) ==
-  IF a.c = "err" \/ b.c = "err" THEN Err
-  ELSE IF a.c = "nan" \/ b.c = "nan" THEN NaN
-  ELSE IF a.c = "zero" \/ b.c = "zero"
-       THEN (IF a.c \in {"inf", "ninf"} \/ b.c \in {"inf", "ninf"} THEN NaN ELSE Zero)
-  ELSE IF a.c \in {"inf", "ninf"} \/ b.c \in {"inf", "ninf"}
-       THEN (IF SignOf(a) * SignOf(b) > 0 THEN Inf ELSE NInf)
-  ELSE IF a.c = "irr" \/ b.c = "irr" THEN Irr(SignOf(a) * SignOf(b), DMul(a.d, b.d))
-  ELSE Fin(RMul(a.v, b.v), DMul(a.d, b.d))
-
-\* ---- sum ------------------------------------------------------------------
-\* a sum/min/max is refused iff two of its terms that are not "any" have
-\* different dimensions
-Compatible(xs) == \A i, j \in DOMAIN xs :
-                     (~IsAny(xs[i]) /\ ~IsAny(xs[j])) => Same(xs[i].d, xs[j].d)
-CommonDim(xs) == IF \E i \in DOMAIN xs : ~IsAny(xs[i])
-                 THEN xs[CHOOSE i \in DOMAIN xs : ~IsAny(xs[i])].d ELSE D1
-
-RECURSIVE SumFin(_)
-SumFin(xs) == IF xs = <<>> THEN RZero
-              ELSE IF Head(xs).c = "fin" THEN RAdd(Head(xs).v, SumFin(Tail(xs))) ELSE SumFin(Tail(xs))
-
-Count(xs, cls) == Cardinality({i \in DOMAIN xs : xs[i].c = cls})
-
-AddDefined(xs) ==
-  /\ Count(xs, "irr") <= 1                        \* two irrationals could cancel: not decided
-  /\ \A i \in DOMAIN xs : ~HasAngle(xs[i])        \* angle-dimension terms in sums: statement silent
-  /\ Small(SumFin(Tail(xs))) /\ Small(SumFin(xs))  \* operands are Small: no overflow in one RAdd
-
-AddN(xs) ==
-  IF \E i \in DOMAIN xs : xs[i].c = "err" THEN Err
-  ELSE IF ~Compatible(xs) THEN Err
-  ELSE IF Count(xs, "nan") > 0 THEN NaN
-  ELSE IF Count(xs, "inf") > 0 /\ Count(xs, "ninf") > 0 THEN NaN
-  ELSE IF Count(xs, "inf") > 0 THEN Inf
-  ELSE IF Count(xs, "ninf") > 0 THEN NInf
-  ELSE IF Count(xs, "irr") > 0 THEN Irr(0, CommonDim(xs))
-  ELSE Fin(SumFin(xs), CommonDim(xs))
-
-\* ---- min / max --------------------------------------------------------------
-\* min/max with an irrational or NaN operand is not decided (SymPy itself rejects NaN as "not comparable")
-MinMaxDefined(a, b) == a.c \notin {"irr", "nan"} /\ b.c \notin {"irr", "nan"} /\ ~HasAngle(a) /\ ~HasAngle(b)
-
-\* extended-real comparison a <= b for classes zero/fin/inf/ninf
-LeX(a, b) == \/ a.c = "ninf" \/ b.c = "inf"
-             \/ (a.c \in {"zero", "fin"} /\ b.c \in {"zero", "fin"} /\ RLe(a.v, b.v))
-
-MinMax(isMin, a, b) ==
-  IF a.c = "err" \/ b.c = "err" THEN Err
-  ELSE IF ~Compatible(<<a, b>>) THEN Err
-  ELSE IF a.c = "nan" \/ b.c = "nan" THEN NaN
-  ELSE LET pick == IF isMin THEN (IF LeX(a, b) THEN a ELSE b) ELSE (IF LeX(a, b) THEN b ELSE a)
-       IN  IF pick.c = "fin" THEN Fin(pick.v, CommonDim(<<a, b>>)) ELSE pick
-
-\* ---- absolute value ----------------------------------------------------------
-AbsSem(a) ==
-  CASE a.c = "err" -> Err [] a.c = "zero" -> Zero [] a.c = "nan" -> NaN
-    [] a.c \in {"inf", "ninf"} -> Inf
-    [] a.c = "irr" -> Irr(IF a.v[1] = 0 THEN 0 ELSE 1, a.d)
-    [] OTHER -> Fin(RAbs(a.v), a.d)
-
-\* ---- power ---------------------------------------------------------------------
-\* exponent e: refused iff it is not "any" and not dimensionless
-PowRefused(b, e) == ~IsAny(e) /\ e.c # "err" /\ ~Dimless(e.d)
-
-IsHalfInt(r) == r[2] \in {1, 2}
-PowDefined(b, e) ==
-  \/ b.c = "err" \/ e.c = "err"
-  \/ PowRefused(b, e) /\ ~HasAngle(e)
-  \/ /\ e.c \in {"zero", "fin"}                    \* infinite / NaN / irrational exponents: not decided
-     /\ ~HasAngle(e)
-     /\ \/ e.c = "zero"
-        \/ b.c = "nan"
-        \/ b.c = "zero" /\ RSign(e.v) > 0                                  \* 0 ** negative is complex infinity
-        \/ b.c = "inf"
-        \/ b.c = "ninf" /\ RIsInt(e.v)
-        \/ b.c = "irr" /\ RIsInt(e.v) /\ AbsI(e.v[1]) <= 4
-        \/ /\ b.c = "fin" /\ IsHalfInt(e.v) /\ AbsI(e.v[1]) <= 6
-           /\ (e.v[2] = 2 => RSign(b.v) > 0 /\ IsSquareR(b.v))
-           /\ PowSmall(IF e.v[2] = 2 THEN RSqrt(b.v) ELSE b.v, e.v[1])
-           /\ DimSmall(b.d) /\ DimSmall(DPow(b.d, e.v))
-
-PowSem(b, e) ==
-  IF b.c = "err" \/ e.c = "err" THEN Err
-  ELSE IF PowRefused(b, e) THEN Err
-  ELSE IF e.c = "zero" THEN Fin(ROne, D1)
-  ELSE IF b.c = "nan" THEN NaN
-  ELSE IF b.c = "zero" THEN Zero
-  ELSE IF b.c = "inf" THEN (IF RSign(e.v) > 0 THEN Inf ELSE Zero)
-  ELSE IF b.c = "ninf" THEN (IF RSign(e.v) < 0 THEN Zero ELSE IF e.v[1] % 2 = 0 THEN Inf ELSE NInf)
-  ELSE IF b.c = "irr" THEN Irr(IF e.v[1] % 2 = 0 THEN (IF b.v[1] = 0 THEN 0 ELSE 1) ELSE b.v[1], DPow(b.d, e.v))
-  ELSE Fin(RPowInt(IF e.v[2] = 2 THEN RSqrt(b.v) ELSE b.v, e.v[1]), DPow(b.d, e.v))
-
-\* ---- elementary function (exp) ----------------------------------------------------
-\* iterated exponentials overflow every number representation: only exp of small rationals is decided
-FuncDefined(a) == ~HasAngle(a) /\ a.c # "irr" /\ (a.c = "fin" /\ Dimless(a.d) => AbsI(a.v[1]) <= 20 * a.v[2])
-FuncSem(a) ==
-  CASE a.c = "err" -> Err
-    [] a.c \in {"fin", "irr"} /\ ~Dimless(a.d) -> Err          \* dimensional argument: refused
-    [] a.c = "zero" -> Fin(ROne, D1)
-    [] a.c = "inf"  -> Inf
-    [] a.c = "ninf" -> Zero
-    [] a.c = "nan"  -> NaN
-    [] OTHER -> Irr(1, D1)
 
 -----------------------------------------------------------------------------
 (* The machine.                                                              *)
